@@ -1,3 +1,17 @@
+mod c27;
+mod c28;
+mod c29;
+mod c35;
+pub mod c32b;
+mod driver;
+mod mesh;
+
+fn c32b_only(ctx: &mut vcore::Ctx) {
+    c32b::run_behaviour_part(ctx)
+}
+
 fn main() {
-    vcore::runner::main(&[])
+    // "C32b" is a private alias so that the behaviour-level C32 sub-check can be exercised from this
+    // binary; the registered C32 entry belongs to chk-gsub-pure.
+    vcore::runner::main(&[("C27", c27::run), ("C28", c28::run), ("C29", c29::run), ("C35", c35::run), ("C32b", c32b_only)])
 }
